@@ -6,6 +6,7 @@ CONSTANTS
   SessionLoss = TRUE
   ClearAfterRequeue = FALSE
   KeepOldWaiter = FALSE
+  CancelOnPublish = FALSE
   SilentLoss = FALSE
   LossyWrites = FALSE
 INVARIANT Qos2AtMostOnce
